@@ -11,7 +11,7 @@ from ..ctx import Failure, Result, Viol, digest
 
 LEVEL = "fault_enumeration"
 WORKERS = {"quick": 8, "thorough": 16}
-BUDGET_S = {"quick": 90, "thorough": 800}
+BUDGET_S = {"quick": 110, "thorough": 800}
 RULE = (
     "Hypothesis draws a scenario (S1 stage+transfer into a LocalHashFileDB with state, hardlink on/off; "
     "S2 index build->md5->save of nested directories with state; S3 store->store transfer local cache -> "
@@ -51,6 +51,8 @@ def cases(draw):
         "only_n": None,
         "only_m": None,
         "bulk": 0,
+        # transfers / adds run with verification on (target store configured verify=True and verify=True passed)
+        "verify": draw(st.sampled_from([False, False, True])),
     }
 
 
@@ -72,23 +74,24 @@ def operation(case, run):
     fs = LocalFileSystem()
     ws = os.path.join(run, "ws")
     sc = case["scenario"]
+    vf = bool(case.get("verify"))
     state = State(root_dir=ws, tmp_dir=os.path.join(run, "tmp"))
     try:
         if sc in ("S1", "S4"):
-            odb = LocalHashFileDB(fs, os.path.join(run, "cache"), state=state)
+            odb = LocalHashFileDB(fs, os.path.join(run, "cache"), state=state, verify=vf or None)
             staging, _, obj = build(odb, os.path.join(ws, "data"), fs, "md5", upload=(sc == "S4"))
-            res = transfer(staging, odb, {obj.hash_info}, shallow=False,
+            res = transfer(staging, odb, {obj.hash_info}, shallow=False, verify=vf,
                            hardlink=case["hardlink"] and sc == "S1")
             if res.failed:
                 raise RuntimeError(f"transfer failed: {res.failed}")
         elif sc == "S2":
-            odb = LocalHashFileDB(fs, os.path.join(run, "cache"), state=state)
+            odb = LocalHashFileDB(fs, os.path.join(run, "cache"), state=state, verify=vf or None)
             idx = ibuild(ws, fs)
             idx = md5(idx, state=state)
             save(idx, odb=odb)
         elif sc == "S3":
             cache = LocalHashFileDB(fs, os.path.join(run, "cache"), state=state)
-            remote = LocalHashFileDB(fs, os.path.join(run, "remote"))
+            remote = LocalHashFileDB(fs, os.path.join(run, "remote"), verify=vf or None)
             with open(os.path.join(run, "request.txt"), encoding="utf-8") as f:
                 req = {HashInfo("md5", ln.strip()) for ln in f if ln.strip()}
             kw = {}
@@ -97,7 +100,7 @@ def operation(case, run):
                 index = ObjectDBIndex(os.path.join(run, "idx"), "remote")
                 kw["dest_index"] = index
             try:
-                res = transfer(cache, remote, req, shallow=case["form"] != "expand", **kw)
+                res = transfer(cache, remote, req, shallow=case["form"] != "expand", verify=vf, **kw)
             finally:
                 if index is not None:
                     index.close()
@@ -454,6 +457,8 @@ def run_case(case, ctx):  # noqa: C901
             cl.append("hardlink")
         if case.get("pre"):
             cl.append("target-prepopulated")
+        if case.get("verify"):
+            cl.append("verify-on")
         if case.get("bulk"):
             cl.append("bulk(>1000 files, sampled crash points)")
         if case["scenario"] == "S3" and case.get("tree2"):
@@ -487,6 +492,14 @@ CANON = [
     {"scenario": "S2", "tree": _U, "hardlink": False, "index": False, "form": "closed", "pre": False, "tree2": None},
     {"scenario": "S3", "tree": _U, "hardlink": False, "index": True, "form": "closed", "pre": False, "tree2": None},
     {"scenario": "S4", "tree": _U, "hardlink": False, "index": False, "form": "closed", "pre": False, "tree2": None},
+    # index save of a directory with two sibling sub-directories (order of file vs directory-object writes)
+    {"scenario": "S2", "tree": {"s1": {"a": "p:A"}, "s2": {"b": "p:B", "c": "p:C"}, "top": "p:hello"},
+     "hardlink": False, "index": False, "form": "closed", "pre": False, "tree2": None},
+    # verification on (the verifying paths answer existence / integrity questions differently)
+    {"scenario": "S1", "tree": _U, "hardlink": False, "index": False, "form": "closed", "pre": False, "tree2": None,
+     "verify": True},
+    {"scenario": "S3", "tree": _U, "hardlink": False, "index": False, "form": "expand", "pre": False, "tree2": None,
+     "verify": True},
     # > 1000 files in one directory (page / batch sizes of listings and status queries); crash points sampled
     {"scenario": "S1", "tree": {"a": "p:A"}, "hardlink": False, "index": False, "form": "closed", "pre": False,
      "tree2": None, "bulk": 1003},
